@@ -71,8 +71,8 @@ PROPS = {
         "assumptions": ["file replica client only", "litestream's background monitors are off; the harness is the only caller (schedules at statement granularity)",
                         "reference image = SQLite's own recovery+checkpoint of a copy of (db, db-wal)"],
         "runs": [
-            {"name": "histories", "test": "TestProp_C01", "kind": "rapid", "checks_quick": 600, "checks_thorough": 1800, "shards": 6},
-            {"name": "interleaved", "test": "TestProp_C01I", "kind": "rapid", "checks_quick": 400, "checks_thorough": 1800, "shards": 6},
+            {"name": "histories", "test": "TestProp_C01", "kind": "rapid", "checks_quick": 600, "checks_thorough": 1000, "shards": 6},
+            {"name": "interleaved", "test": "TestProp_C01I", "kind": "rapid", "checks_quick": 400, "checks_thorough": 1000, "shards": 6},
         ],
     },
     "C02": {
@@ -93,7 +93,7 @@ PROPS = {
         "assumptions": ["schedules are enumerated at statement granularity (the granularity at which SQLite makes frames visible); preemptive concurrency is C12's",
                         "file replica client only"],
         "runs": [
-            {"name": "histories", "test": "TestProp_C02", "kind": "rapid", "checks_quick": 400, "checks_thorough": 2000, "shards": 6},
+            {"name": "histories", "test": "TestProp_C02", "kind": "rapid", "checks_quick": 400, "checks_thorough": 1200, "shards": 6},
         ],
     },
     "C20": {
@@ -150,7 +150,7 @@ PROPS = {
                  "distinct = hash of (config, abstracted ops, k)."),
         "assumptions": ["monitors off: the harness issues the syncs", "CheckpointInterval only takes values whose outcome is independent of test speed"],
         "runs": [
-            {"name": "histories", "test": "TestProp_C13", "kind": "rapid", "checks_quick": 500, "checks_thorough": 5000, "shards": 6},
+            {"name": "histories", "test": "TestProp_C13", "kind": "rapid", "checks_quick": 500, "checks_thorough": 3000, "shards": 6},
         ],
     },
     "C14": {
@@ -168,7 +168,7 @@ PROPS = {
                  ' Includes cold restarts (litestream and every application connection closed - the WAL is deleted - then started again, litestream first or second) and syncs/checkpoints during which the local staging of the next LTX files fails.'),
         "assumptions": ["busy results of application RESTART/TRUNCATE checkpoints may differ (documented effect of litestream's read lock) and are not compared"],
         "runs": [
-            {"name": "paired-histories", "test": "TestProp_C14", "kind": "rapid", "checks_quick": 400, "checks_thorough": 2500, "shards": 6},
+            {"name": "paired-histories", "test": "TestProp_C14", "kind": "rapid", "checks_quick": 400, "checks_thorough": 1500, "shards": 6},
         ],
     },
     "C06": {
@@ -186,7 +186,7 @@ PROPS = {
                  ' A third of the histories continue with a compaction ladder (rounds of 1-3 level-1 compactions followed by the higher levels in order).'),
         "assumptions": ["file replica client only"],
         "runs": [
-            {"name": "histories", "test": "TestProp_C06", "kind": "rapid", "checks_quick": 400, "checks_thorough": 3000, "shards": 6},
+            {"name": "histories", "test": "TestProp_C06", "kind": "rapid", "checks_quick": 400, "checks_thorough": 1200, "shards": 6},
         ],
     },
     "C07": {
@@ -203,7 +203,7 @@ PROPS = {
                  "hash of (config, abstracted ops)."),
         "assumptions": ["file replica client only"],
         "runs": [
-            {"name": "histories", "test": "TestProp_C07", "kind": "rapid", "checks_quick": 400, "checks_thorough": 3000, "shards": 6},
+            {"name": "histories", "test": "TestProp_C07", "kind": "rapid", "checks_quick": 400, "checks_thorough": 1500, "shards": 6},
         ],
     },
     "C15": {
@@ -221,7 +221,7 @@ PROPS = {
                  ' A quarter of the acknowledged syncs have a Snapshot request started on its own goroutine from inside a phase hook (it queues on the executor while the sync creates the next TXID).'),
         "assumptions": ["file replica client: CreatedAt is the file mtime set from the LTX header timestamp"],
         "runs": [
-            {"name": "histories", "test": "TestProp_C15", "kind": "rapid", "checks_quick": 300, "checks_thorough": 2000, "shards": 6},
+            {"name": "histories", "test": "TestProp_C15", "kind": "rapid", "checks_quick": 300, "checks_thorough": 1200, "shards": 6},
         ],
     },
     "C04": {
@@ -238,7 +238,7 @@ PROPS = {
                  " A fifth of the disturbances are multi-restart sequences (2-3 checkpoint+write rounds, short generations rewriting different rows); after a restart the storage may fail litestream's first 1-3 client calls; after the last disturbance a bounded recovery check requires an acknowledged sync within three attempts on a quiet database."),
         "assumptions": ["file replica client only", "litestream never runs concurrently with the down-time sub-history (that is what 'down' means)"],
         "runs": [
-            {"name": "histories", "test": "TestProp_C04", "kind": "rapid", "checks_quick": 500, "checks_thorough": 3000, "shards": 6},
+            {"name": "histories", "test": "TestProp_C04", "kind": "rapid", "checks_quick": 500, "checks_thorough": 2000, "shards": 6},
         ],
     },
     "C05": {
@@ -255,7 +255,7 @@ PROPS = {
                  ' A third of the cases end with a compaction ladder (several level-1 files, then levels 2/3 read back from the replica) with the fault plan restricted to one kind of client call.'),
         "assumptions": ["file replica client underneath the injector", "monitors off: the retry loops exercised are SyncAndWait's caller-driven retries and Close's shutdown retry"],
         "runs": [
-            {"name": "histories", "test": "TestProp_C05", "kind": "rapid", "checks_quick": 400, "checks_thorough": 2500, "shards": 6},
+            {"name": "histories", "test": "TestProp_C05", "kind": "rapid", "checks_quick": 400, "checks_thorough": 1500, "shards": 6},
         ],
     },
     "C10": {
@@ -274,7 +274,7 @@ PROPS = {
                  " Damage kind image: an intact replica encoding a database image with junk in the file header, the schema page or another page, restored with an integrity mode; the expected outcome is computed with the harness's own SQLite."),
         "assumptions": ["file replica client", "single corruptions (one damage per restore)"],
         "runs": [
-            {"name": "damages", "test": "TestProp_C10", "kind": "rapid", "checks_quick": 240, "checks_thorough": 3000, "shards": 6},
+            {"name": "damages", "test": "TestProp_C10", "kind": "rapid", "checks_quick": 240, "checks_thorough": 2000, "shards": 6},
             {"name": "enumerate-offsets", "test": "TestEnum_C10", "kind": "plain", "shards_quick": 6, "shards_thorough": 8,
              "env": {"VERIF_ENUM": "1"}, "env_quick": {"VERIF_ENUM_REPLICAS": "1", "VERIF_ENUM_STRIDE": "7"}, "env_thorough": {"VERIF_ENUM_REPLICAS": "6", "VERIF_ENUM_STRIDE": "1"}},
         ],
@@ -294,7 +294,7 @@ PROPS = {
                  ' 40% of the cases add a traced follow-mode restore (initial restore, then 1-3 more replicated transactions applied with the TXID sidecar republished).'),
         "assumptions": ["x86_64 Linux ptrace", "lsdriver executes one command at a time on one goroutine"],
         "runs": [
-            {"name": "scenarios", "test": "TestProp_C11", "kind": "rapid", "checks_quick": 150, "checks_thorough": 1000, "shards": 8},
+            {"name": "scenarios", "test": "TestProp_C11", "kind": "rapid", "checks_quick": 150, "checks_thorough": 600, "shards": 8},
         ],
     },
     "C03": {
@@ -330,7 +330,7 @@ PROPS = {
                  ' Levels 1-3; prune ops (TXID retention of a level up to what the next level holds) and ladder slices leave the follower several levels behind with lower levels partly deleted.'),
         "assumptions": ["x86_64 Linux ptrace", "file replica client", "convergence wait bounded by 4000 polls of 2 ms with a static replica"],
         "runs": [
-            {"name": "schedules", "test": "TestProp_C16", "kind": "rapid", "checks_quick": 64, "checks_thorough": 800, "shards": 8},
+            {"name": "schedules", "test": "TestProp_C16", "kind": "rapid", "checks_quick": 64, "checks_thorough": 500, "shards": 8},
         ],
     },
     "C19": {
@@ -347,7 +347,7 @@ PROPS = {
                  ' Generation IDs may sort in reverse age order; the current-format files may lie between the newest legacy snapshot and the legacy WAL segments after it.'),
         "assumptions": ["file replica client (CreatedAt = file mtime)", "segments end at commit boundaries, as 0.3.x produced them"],
         "runs": [
-            {"name": "layouts", "test": "TestProp_C19", "kind": "rapid", "checks_quick": 2400, "checks_thorough": 15000, "shards": 8},
+            {"name": "layouts", "test": "TestProp_C19", "kind": "rapid", "checks_quick": 2400, "checks_thorough": 10000, "shards": 8},
         ],
     },
     "C18": {
@@ -364,7 +364,7 @@ PROPS = {
                  ' Also: several replicated transactions of different kinds picked up by one poll; a reader holding the SHARED lock while the poller runs (compared after unlock); polls while a time-travel view is installed (the view must not move).'),
         "assumptions": ["file replica client", "build tags verif,vfs with cgo"],
         "runs": [
-            {"name": "histories", "test": "TestProp_C18", "kind": "rapid", "checks_quick": 400, "checks_thorough": 4000, "shards": 6},
+            {"name": "histories", "test": "TestProp_C18", "kind": "rapid", "checks_quick": 400, "checks_thorough": 2500, "shards": 6},
         ],
     },
     "C17": {
@@ -398,7 +398,7 @@ PROPS = {
                  ' Operations include Close with an expiring (3 ms) or already cancelled context behind a harness gate that keeps other lifecycle requests out (the instance must be closed when the call returns); an operation that uses up its whole 20 s budget waiting is a violation.'),
         "assumptions": ["the OS/Go scheduler chooses the interleavings", "watchdog bounds (45 s per operation, 90 s for Close) exceed observed maxima by two orders of magnitude"],
         "runs": [
-            {"name": "stress", "test": "TestProp_C12", "kind": "rapid", "checks_quick": 96, "checks_thorough": 1200, "shards": 8, "confirm": False, "shrinktime": "0s",
+            {"name": "stress", "test": "TestProp_C12", "kind": "rapid", "checks_quick": 96, "checks_thorough": 800, "shards": 8, "confirm": False, "shrinktime": "0s",
              "gomaxprocs": 16, "env": {"GORACE": "halt_on_error=1 exitcode=66"}},
         ],
     },
